@@ -38,8 +38,15 @@ fn main() {
         qi += 1;
         let (is_recv, q) = match line.strip_prefix("R ") { Some(q) => (true, q), None => (false, line) };
         let toks: Vec<&str> = q.split_whitespace().collect();
-        let ty = parse(&mut toks.iter());
+        let mut ty = parse(&mut toks.iter());
         let key = toks.join(" ");
+        // three registry queries go through derived query structs instead of the equivalent tuple
+        match key.as_str() {
+            "t2 r0 r1" => ty = "DqPair<'static>".into(),
+            "t2 m0 ! r1" => ty = "DqTuple<'static>".into(),
+            "t3 e o m0 h r1" => ty = "DqMixed<'static>".into(),
+            _ => {}
+        }
         let wrap = qi % 4;
         writeln!(fetch, "        {key:?} => Some(Box::new(FetchP::<{ty}>::new(kind, {wrap}))),").unwrap();
         if is_recv {
